@@ -338,6 +338,14 @@ func PublishContext[T any](bus *EventBus, ctx context.Context, event T) {
 			}
 		}
 
+		// Skip the handler if the context is already cancelled. This is checked
+		// before a once handler is claimed so that a skipped publish does not use it up
+		select {
+		case <-ctx.Done():
+			continue
+		default:
+		}
+
 		// For once handlers, use CompareAndSwap to ensure atomic execution
 		if h.once {
 			if !atomic.CompareAndSwapUint32(&h.executed, 0, 1) {
@@ -354,22 +362,19 @@ func PublishContext[T any](bus *EventBus, ctx context.Context, event T) {
 				defer wg.Done()
 				defer bus.wg.Done()
 
-				// Check context before executing
-				select {
-				case <-ctx.Done():
-					return
-				default:
-					callHandlerWithContext(handler, ctx, event, bus.panicHandler, bus.observability, eventTypeName, true)
+				// Check context before executing. A once handler has been claimed
+				// and retired by now, so it runs regardless: the claim is never wasted
+				if !handler.once {
+					select {
+					case <-ctx.Done():
+						return
+					default:
+					}
 				}
+				callHandlerWithContext(handler, ctx, event, bus.panicHandler, bus.observability, eventTypeName, true)
 			}(h)
 		} else {
-			// Check context cancellation for sync handlers too
-			select {
-			case <-ctx.Done():
-				continue // Skip if context cancelled
-			default:
-				callHandlerWithContext(h, ctx, event, bus.panicHandler, bus.observability, eventTypeName, false)
-			}
+			callHandlerWithContext(h, ctx, event, bus.panicHandler, bus.observability, eventTypeName, false)
 		}
 	}
 
